@@ -68,6 +68,9 @@ def work(arg: tuple) -> dict:
     for combo in combos:
         base = X.Case(spec, [c[1] for c in combo], inputs=[c[2] for c in combo], fam=fam)
         cases = [base]
+        if k == 2:
+            # the same runs on two chart objects (two DAGs) built from the same node classes
+            cases.append(X.Case(spec, base.plans, inputs=base.inputs, fam=fam, collab={'chart_per_run': True}))
         if k == 2 and len(spec['nodes']) <= (4 if q else 5) and combo[0][0] in (('ok0',) if q else ('ok0', 'ok1')) \
                 and combo[1][0] in (('ok-x2',) if q else ('ok0', 'ok-x2')):
             # cancel run 0 at every loop step of the default schedule; run 1 must not notice
@@ -157,7 +160,8 @@ def run(prop: str, tier: str, seed: int) -> dict:
     cov = dict(programs=len(items), cases=tot['cases'], executions=tot['executions'], evaluations=tot['executions'],
                states=max(tot['states'], 1), transitions=max(tot['transitions'], 1), traces_validated_against_impl=tot['executions'],
                deviation_bound_completed=0, caps_hit=tot['capped'], exhaustive=tot['capped'] == 0, samples=samples,
-               rule='cases = program x ordered k-tuple of run kinds (success, labels, failures, other input) on ONE chart object, plus '
+               rule='cases = program x ordered k-tuple of run kinds (success, labels, failures, other input) on ONE chart object and (k = 2) on two '
+                    'chart objects built from the same node classes, plus '
                     'run 0 cancelled at loop steps of the default schedule; every d=0 interleaving of the externals of all runs is '
                     'executed; each run is compared with the set of outcomes/traces of its solo exploration')
     return dict(coverage=cov, violations=viol, internal=internal, level='model_checking',
